@@ -22,9 +22,11 @@ def _uf(name, arity):
 class UFModel(nn.Module):
     """forward(X, *args): row i of output t is F_t(X[i], args[0][i], ...) (uninterpreted)"""
 
-    def __init__(self, n_out, kind, out_dim=2, has_param=True):
+    def __init__(self, n_out, kind, out_dim=2, has_param=True, out_shapes=None):
         super().__init__()
         self.n_out, self.kind, self.out_dim = n_out, kind, out_dim
+        # per-output trailing shape (default: (out_dim,) for every output)
+        self.out_shapes = [tuple(s_) for s_ in out_shapes] if out_shapes else [(out_dim,)] * n_out
         if has_param:
             self.w = nn.Parameter(np.array([1], dtype=object), dtype="float32")
         self.drop = nn.Dropout()
@@ -32,21 +34,21 @@ class UFModel(nn.Module):
 
     def forward(self, X, *args):
         self.seen.append({"training": self.training, "drop_training": self.drop.training, "grad": T.GRAD_ENABLED[0],
-                          "n": X.shape[0], "arg_n": [a.shape[0] for a in args]})
+                          "n": X.shape[0], "arg_n": [a.shape[0] for a in args], "arg_dtypes": [str(a.dtype) for a in args],
+                          "x_dtype": str(X.dtype)})
         n = X.shape[0]
         for a in args:
             if a.shape[0] != n:
                 raise RuntimeError("model received misaligned batch")
         outs = []
         for t in range(self.n_out):
-            rows = []
+            shp = self.out_shapes[t]
+            arr = np.empty((n,) + shp, dtype=object)
             for i in range(n):
-                feats = [core.zn(v) for v in X.a[i].flat]
-                for a in args:
-                    feats += [core.zn(v) for v in a.a[i].flat]
-                feats = [z3.ToReal(f) if z3.is_int(f) else f for f in feats]
-                rows.append([core.lift(_uf("F%d_%d_%d" % (t, d, len(feats)), len(feats))(*feats)) for d in range(self.out_dim)])
-            outs.append(T.Tensor(np.array(rows, dtype=object).reshape(n, self.out_dim), dtype="float32"))
+                argrows = [list(a.a[i].flat) for a in args]
+                for k, cell in enumerate(np.ndindex(*shp)):
+                    arr[(i,) + cell] = expected_row(t, k, list(X.a[i].flat), argrows)
+            outs.append(T.Tensor(arr, dtype="float32"))
         if self.kind == "tensor":
             return outs[0]
         return tuple(outs) if self.kind == "tuple" else list(outs)
@@ -84,12 +86,18 @@ def replay(r):
             return y
 
         def forward(self, X, *a):
-            self.flags.append((self.training, torch.is_grad_enabled()))
+            self.flags.append((self.training or self.drop.training, torch.is_grad_enabled()))
+            self.arg_dtypes = [ai.dtype for ai in a]
             y = self.drop(self.row(X, *a))
             outs = [y * (t + 1) for t in range(n_out)]
             return outs[0] if kind == "tensor" else (tuple(outs) if kind == "tuple" else list(outs))
     m = M()
-    m.train()
+    m.train(r.get("top_training", True))
+    m.drop.train(r.get("child_training", True))
+    m.float()
+    if n_args and r.get("bad_arg") is None:
+        args[-1] = torch.arange(n, dtype=torch.int64).reshape(n, 1).repeat(1, 2) + (1 << 25) + 1
+    want_dtypes = [a.dtype for a in args]
     X0 = X.clone()
     a0 = [a.clone() for a in args]
     try:
@@ -102,15 +110,17 @@ def replay(r):
         return True, "an args entry with a different leading dimension was accepted"
     if any(f != (False, False) for f in m.flags):
         return True, "model was called in training mode or with gradients enabled: %s" % (m.flags[:3],)
+    if m.arg_dtypes != want_dtypes:
+        return True, "extra arguments reached the model with dtypes %s instead of %s" % (m.arg_dtypes, want_dtypes)
     if not torch.equal(X, X0) or any(not torch.equal(a, b) for a, b in zip(args, a0)):
         return True, "inputs modified"
     with torch.no_grad():
-        exp = m.row(X, *args)
+        exp = m.row(X.float(), *args)
     ys = [y] if kind == "tensor" else list(y)
     if len(ys) != (1 if kind == "tensor" else n_out):
         return True, "wrong number of outputs"
     for t, yt in enumerate(ys):
-        if yt.shape != exp.shape or not torch.allclose(yt, exp * (t + 1), atol=1e-12):
+        if yt.shape != exp.shape or not torch.allclose(yt.double(), exp.double() * (t + 1), atol=1e-4, rtol=1e-5):
             return True, "output %d differs from the row-wise evaluation (shape %s vs %s)" % (t, tuple(yt.shape), tuple(exp.shape))
     return False, "ok"
 
@@ -134,10 +144,16 @@ def worker(cfg):
         bs = core.Int("batch_size")
         ctx.assume(bs.z >= 1)
         model = UFModel(n_out, kind, has_param=cfg.get("has_param", True))
-        model.train()
+        # arbitrary pre-state of the mode flags: the top-level module and the dropout child independently
+        top_tr, child_tr = core.Bool("top_training"), core.Bool("child_training")
+        model.__dict__["training"] = bool(top_tr)
+        model.drop.__dict__["training"] = bool(child_tr)
+        if n_args:
+            args[-1].dtype = "int64"
+        arg_dtypes = [str(a.dtype) for a in args]
 
         def rp(m):
-            return dict(cfg, batch_size=core.model_value(m, bs))
+            return dict(cfg, batch_size=core.model_value(m, bs), top_training=bool(core.model_value(m, top_tr)), child_training=bool(core.model_value(m, child_tr)))
         try:
             y = pred.predict(model, X, args=tuple(args) if n_args else None, batch_size=bs, device="cpu")
         except (ValueError, RuntimeError, IndexError) as e:
@@ -152,6 +168,7 @@ def worker(cfg):
         cl = []
         for s in model.seen:
             cl.append(not s["training"] and not s["drop_training"] and not s["grad"])
+            cl.append(s["arg_dtypes"] == arg_dtypes)          # extra arguments reach the model as given
         ys = [y] if kind == "tensor" else list(y)
         cl.append(isinstance(y, T.Tensor) if kind == "tensor" else (len(ys) == n_out))
         for t, yt in enumerate(ys):
@@ -212,5 +229,5 @@ def main(tier, seed):
                        "device transfer and dtype cast are identities", "batch_size <= 0 outside the claim"]
     rep.absorb(harness.run_configs("checks.C03", "worker", cf))
     rep.witness_ok = rep.stats["returned"] > 0 and rep.stats["raised"] > 0
-    rep.validated += validate_model()
+    rep.run_validation(validate_model)
     return harness.finish(rep)
